@@ -1,0 +1,150 @@
+// This file is part of yash, an extended POSIX shell.
+// Copyright (C) 2026 WATANABE Yuki
+//
+// This program is free software: you can redistribute it and/or modify
+// it under the terms of the GNU General Public License as published by
+// the Free Software Foundation, either version 3 of the License, or
+// (at your option) any later version.
+//
+// This program is distributed in the hope that it will be useful,
+// but WITHOUT ANY WARRANTY; without even the implied warranty of
+// MERCHANTABILITY or FITNESS FOR A PARTICULAR PURPOSE.  See the
+// GNU General Public License for more details.
+//
+// You should have received a copy of the GNU General Public License
+// along with this program.  If not, see <https://www.gnu.org/licenses/>.
+
+//! Hooks for deterministic simulation (feature `verif-hooks` only)
+//!
+//! This module is compiled only when the `verif-hooks` cargo feature is
+//! enabled. It lets an external simulator observe and perturb the virtual
+//! system: preempt a virtual process at a system-call boundary, shorten a
+//! read or write, fail a file-descriptor allocation, and record events.
+//!
+//! Nothing here changes behaviour unless a hook has been
+//! [installed](install) in the current thread.
+
+use crate::io::Fd;
+use crate::job::Pid;
+use crate::system::Errno;
+use std::cell::{Cell, RefCell};
+use std::collections::BTreeMap;
+use std::ffi::c_int;
+use std::future::poll_fn;
+use std::rc::Rc;
+use std::task::{Context, Poll};
+
+/// Interface implemented by the simulator
+pub trait SimHook {
+    /// Whether the process should yield the CPU at this site.
+    fn preempt(&self, pid: Pid, site: &'static str) -> bool;
+    /// Returns the number of bytes (`1..=len`) a read or write may transfer.
+    fn clamp(&self, pid: Pid, fd: Fd, is_write: bool, len: usize, is_fifo: bool) -> usize;
+    /// Whether this file-descriptor allocation should fail with `EMFILE`.
+    fn fail_fd_alloc(&self, pid: Pid, site: &'static str) -> bool;
+    /// Records an event. Must not access the system state.
+    fn event(&self, pid: Pid, kind: &'static str, a: i64, b: i64);
+}
+
+thread_local! {
+    static HOOK: RefCell<Option<Rc<dyn SimHook>>> = const { RefCell::new(None) };
+    /// 1 = preemption requested, 2 = yielded to the outer executor
+    static PREEMPT: RefCell<BTreeMap<Pid, u8>> = const { RefCell::new(BTreeMap::new()) };
+    static CURRENT: Cell<Option<Pid>> = const { Cell::new(None) };
+}
+
+/// Installs (or removes) the hook for the current thread.
+pub fn install(hook: Option<Rc<dyn SimHook>>) {
+    HOOK.with(|h| *h.borrow_mut() = hook);
+    PREEMPT.with(|p| p.borrow_mut().clear());
+    CURRENT.with(|c| c.set(None));
+}
+
+fn hook() -> Option<Rc<dyn SimHook>> {
+    HOOK.with(|h| h.borrow().clone())
+}
+
+/// Tells the hooks which virtual process the executor is about to poll.
+pub fn set_current_pid(pid: Option<Pid>) {
+    CURRENT.with(|c| c.set(pid));
+}
+
+/// Returns the process set by [`set_current_pid`].
+pub fn current_pid() -> Option<Pid> {
+    CURRENT.with(|c| c.get())
+}
+
+/// Records an event for the given process.
+pub fn event(pid: Pid, kind: &'static str, a: i64, b: i64) {
+    if let Some(h) = hook() {
+        h.event(pid, kind, a, b);
+    }
+}
+
+/// Returns true if the file-descriptor allocation should fail.
+pub fn fail_fd_alloc(pid: Pid, site: &'static str) -> bool {
+    hook().is_some_and(|h| h.fail_fd_alloc(pid, site))
+}
+
+/// Returns the number of bytes the read/write may transfer.
+pub fn clamp(pid: Pid, fd: Fd, is_write: bool, len: usize, is_fifo: bool) -> usize {
+    if len <= 1 {
+        return len;
+    }
+    match hook() {
+        Some(h) => h.clamp(pid, fd, is_write, len, is_fifo).clamp(1, len),
+        None => len,
+    }
+}
+
+/// Possibly yields the CPU to other virtual processes.
+///
+/// If the hook asks for it, the returned future is pending exactly once. The
+/// run loop of the virtual process then enters `select`, where
+/// [`select_gate`] hands control to the outer executor and, when polled
+/// again, makes `select` return `EINTR` so that the process resumes here.
+pub async fn preempt_point(pid: Pid, site: &'static str) {
+    let Some(h) = hook() else { return };
+    if !h.preempt(pid, site) {
+        return;
+    }
+    PREEMPT.with(|p| {
+        p.borrow_mut().entry(pid).or_insert(1);
+    });
+    let mut first = true;
+    poll_fn(|_| {
+        if first {
+            first = false;
+            Poll::Pending
+        } else {
+            Poll::Ready(())
+        }
+    })
+    .await
+}
+
+/// [`preempt_point`] for the process set by [`set_current_pid`].
+pub async fn preempt_point_current(site: &'static str) {
+    if let Some(pid) = current_pid() {
+        preempt_point(pid, site).await
+    }
+}
+
+/// Gate called from the `poll_fn` of `VirtualSystem::select`.
+pub fn select_gate(pid: Pid, cx: &mut Context<'_>) -> Option<Poll<Result<c_int, Errno>>> {
+    PREEMPT.with(|p| {
+        let mut p = p.borrow_mut();
+        match p.get(&pid).copied() {
+            Some(1) => {
+                p.insert(pid, 2);
+                cx.waker().wake_by_ref();
+                Some(Poll::Pending)
+            }
+            Some(_) => {
+                p.remove(&pid);
+                Some(Poll::Ready(Err(Errno::EINTR)))
+            }
+            None => None,
+        }
+    })
+}
